@@ -44,13 +44,26 @@ def _work(args):
 
 
 def judge(name, text, pred, dec, encs):
-    """consistency of the three classifiers on one text -> complaint or None"""
+    """first complaint that is not attributed to the listed finding KF-C17-1, or None"""
+    for w in judge_all(name, text, pred, dec, encs):
+        return w
+    return None
+
+
+def judge_all(name, text, pred, dec, encs):
+    """consistency of the three classifiers on one text -> list of complaints"""
+    out = []
+    _judge(name, text, pred, dec, encs, out.append)
+    return out
+
+
+def _judge(name, text, pred, dec, encs, say):
     t = dec.get("t")
     err = dec.get("err")
     if any(isinstance(v, str) for v in pred.values()):
-        return "a token predicate raised %s" % [v for v in pred.values() if isinstance(v, str)][0]
+        say("a token predicate raised %s" % [v for v in pred.values() if isinstance(v, str)][0])
     if err not in (None, "ValueError"):
-        return "decode_simple_value raised %s" % err
+        say("decode_simple_value raised %s" % err)
     # the class by the decoder's priority order
     folded = text.casefold()
     kwd = folded in ("null", "true", "false")
@@ -71,28 +84,28 @@ def judge(name, text, pred, dec, encs):
     want_t = {"keyword": ("N", "B"), "quoted": ("S",), "based": ("I",), "decimal": ("I", "R"),
               "datetime": ("D", "T", "DT", "S"), "unquoted": ("S",), "not-a-value": (None,)}[cls]
     if t not in want_t:
-        return "class %s but decode_simple_value gives type %s" % (cls, t)
+        say("class %s but decode_simple_value gives type %s" % (cls, t))
     if pred["simple"] != (err is None):
-        return "is_simple_value=%s but decoding %s" % (pred["simple"], "fails" if err else "succeeds")
+        say("is_simple_value=%s but decoding %s" % (pred["simple"], "fails" if err else "succeeds"))
     if pred["numeric"] != (pred["decimal"] or pred["nondecimal"]):
-        return "is_numeric inconsistent with is_decimal/is_non_decimal"
+        say("is_numeric inconsistent with is_decimal/is_non_decimal")
     if (pred["numeric"] or pred["datetime"]) and (pred["unquoted"] or pred["parameter"]):
-        return "text that decodes to a number or date/time is accepted as an unquoted string / parameter name"
+        say("text that decodes to a number or date/time is accepted as an unquoted string / parameter name")
     if cls == "unquoted" and dec.get("v") != [ord(c) for c in text]:
-        return "an unquoted string decodes to a different string"
+        say("an unquoted string decodes to a different string")
     if pred["parameter"] and not pred["unquoted"]:
-        return "is_parameter_name without is_unquoted_string"
+        say("is_parameter_name without is_unquoted_string")
     if pred["unquoted"] and cls not in ("unquoted", "keyword"):
-        return "KF17C is_unquoted_string is true but the decoder's class is %s" % cls
+        say("KF17C is_unquoted_string is true but the decoder's class is %s" % cls)
     for ename, (out, back) in encs.items():
         if out is not None and out == text and back != {"t": "S", "v": [ord(c) for c in text]}:
-            return "%s encoder writes the string bare but it reads back as %s" % (ename, json.dumps(back))
+            say("%s encoder writes the string bare but it reads back as %s" % (ename, json.dumps(back)))
         if out is not None and out != text:
             exp = text
             if ename in ("ODL", "PDS3"):
                 exp = gen.fold_spec(text)
             if back != {"t": "S", "v": [ord(c) for c in exp]}:
-                return "%s encoder writes %r, which reads back as %s" % (ename, out, json.dumps(back))
+                say("%s encoder writes %r, which reads back as %s" % (ename, out, json.dumps(back)))
     return None
 
 
@@ -132,13 +145,16 @@ def run(ctx):
     kf17c = [f for f in core.load_known()["findings"] if f["id"] == "KF-C17-1"]
     kf_hit = [0]
     for i, ((n, t), (pred, dec, encs)) in enumerate(zip(cases, res)):
-        why = judge(n, t, pred, dec, encs)
+        whys = judge_all(n, t, pred, dec, encs)
         stats[n + ":" + (dec.get("t") or dec.get("err"))] += 1
-        if why and why.startswith("KF17C") and kf17c and (
-                (n in ("ODL", "PDS3") and not odl_identifier(t)) or t.casefold() in RESERVED):
-            # attributed to the listed finding: the ODL identifier rule is missing from the token predicate
-            kf_hit[0] += 1
-            continue
+        rest = []
+        for w in whys:
+            if w.startswith("KF17C") and kf17c and ((n in ("ODL", "PDS3") and not odl_identifier(t))
+                                                    or t.casefold() in RESERVED):
+                kf_hit[0] += 1     # attributed to the listed finding (token predicate weaker than the decoder)
+            else:
+                rest.append(w)
+        why = rest[0] if rest else None
         if why and bad is None:
             bad = {"what": "%s (decoder %s, text %r)" % (why, n, t), "decoder": n, "text": t, "text_cps": core.cps(t),
                    "predicates": pred, "decoded": dec, "encoders": {k: list(v) for k, v in encs.items()}}
